@@ -6,6 +6,7 @@ import (
 	"encoding/json"
 	"fmt"
 	"reflect"
+	"runtime"
 	"strings"
 	"unicode/utf8"
 
@@ -15,11 +16,11 @@ import (
 
 // c05Case: Kind "enc" carries a KeyID value; Kind "dec" carries a text.
 type c05Case struct {
-	Kind string
-	K    *keyid.KeyID `json:",omitempty"`
-	Text string       `json:",omitempty"`
-	TextHex string    `json:",omitempty"` // used when Text is not valid UTF-8
-	Note string       `json:",omitempty"`
+	Kind    string
+	K       *keyid.KeyID `json:",omitempty"`
+	Text    string       `json:",omitempty"`
+	TextHex string       `json:",omitempty"` // used when Text is not valid UTF-8
+	Note    string       `json:",omitempty"`
 }
 
 var c05Required = []string{"prins", "transID", "reqUser", "reqIP", "reqHost", "isFirefighter", "isHWKey", "isHeadless", "isNonce", "touchPolicy", "ver"}
@@ -169,7 +170,7 @@ func c05Compose(p []kv) string {
 }
 
 func checkC05(c *ev.Ctx) {
-	c.Rule("encoder: complete product 2^4 flags x touch{-1..4} x usage{0,1,2} x ver{0,1,2,65535} x 6 principal lists x jointly varied 5-value string alphabet, plus 6 literal-escape / control-character strings in each string field of the generating set; decoder: single-field surgeries (delete, 3 case renames, duplicate before/after, retype to null/number/string/array/object/bool-flip) and double surgeries (one field deleted/renamed AND another duplicated or an unknown key added; two members retyped at once, in encoder order and with the first moved to the front) and structural relocations (a field moved from the top level into a nested object / array / two levels / JSON-in-a-string under an unknown or known key, with and without a top-level copy; a field deleted while another field's string value spells its name) on every field of a generating set of encoder outputs, all flag/touch/ver combinations as texts, a JSON value catalogue, every ordered pair (and triples) of a 17-text set decoded back to back (history independence), byte-substitution neighbourhood of an encoder output, and ALL strings up to length 5 (thorough 6) over a 13-symbol structural alphabet. non-trivial = Marshal succeeded (round-trip checked) or Unmarshal accepted (oracle checked, then the result is modified in place and the same text decoded again: results are values of their own); distinct by text")
+	c.Rule("encoder: complete product 2^4 flags x touch{-1..4} x usage{0,1,2} x ver{0,1,2,65535} x 6 principal lists x jointly varied 5-value string alphabet, plus 6 literal-escape / control-character strings in each string field of the generating set; decoder: single-field surgeries (delete, 3 case renames, duplicate before/after, retype to null/number/string/array/object/bool-flip) and double surgeries (one field deleted/renamed AND another duplicated or an unknown key added; two members retyped at once, in encoder order and with the first moved to the front) and structural relocations (a field moved from the top level into a nested object / array / two levels / JSON-in-a-string under an unknown or known key, with and without a top-level copy; a field deleted while another field's string value spells its name) on every field of a generating set of encoder outputs, all flag/touch/ver combinations as texts, a JSON value catalogue, every ordered pair (and triples) of a 22-text set (incl. a valid object followed by garbage / by another valid object) decoded back to back on one pinned thread (history independence; an encoder output decoded after each of them yields the KeyID it spells), byte-substitution neighbourhood of an encoder output, and ALL strings up to length 5 (thorough 6) over a 13-symbol structural alphabet. non-trivial = Marshal succeeded (round-trip checked) or Unmarshal accepted (oracle checked, then the result is modified in place and the same text decoded again: results are values of their own); distinct by text")
 	c.Assume("valid UTF-8 strings only (encoding/json replaces invalid UTF-8, which the property excludes)", "the independent decode uses encoding/json into map[string]RawMessage")
 	if c.ReplayCase != nil {
 		var k c05Case
@@ -468,7 +469,23 @@ func checkC05(c *ev.Ctx) {
 		v2 := append([]kv{}, base...)
 		v2[11].v = "2"
 		set = append(set, c05Compose(v2), "not json", `{"ver":1,"transID":"22dde224"}`, "{}")
+		// a valid object followed by more bytes (refused as a whole): garbage, a closing brace, and ANOTHER valid object -
+		// whatever a decoder read ahead must not reach the next call
+		other := generating[len(generating)-1]
+		other.Principals, other.TransID, other.ReqUser = []string{"intruder", "root"}, "ffffffffff", "mallory"
+		otherText, _ := (&other).Marshal()
+		set = append(set, c05Compose(base)+" trailing", c05Compose(base)+"}", c05Compose(base)+otherText, c05Compose(base)+"\n"+otherText+"\n", otherText)
 		np := 0
+		runtime.LockOSThread() // (pools are per processor: keep the back-to-back calls on one)
+		defer runtime.UnlockOSThread()
+		enc0, want0 := c05Compose(base), ev.JSON(generating[0])
+		for _, t1 := range set {
+			// an encoder output decoded right after t1 yields the KeyID it spells (not only "some consistent KeyID")
+			c05Dec(c, t1, "pair/first")
+			if k2, e2 := keyid.Unmarshal(enc0); e2 != nil || k2 == nil || ev.JSON(k2) != want0 {
+				c.Violation("C05:decode:depends-on-the-previous-text", fmt.Sprintf("an encoder output decoded right after %q gives %s (err=%v), it spells %s", t1[:min(len(t1), 60)], ev.JSON(k2), e2, want0), c05Case{Kind: "dec", Text: t1, Note: "then the encoder output " + enc0})
+			}
+		}
 		for _, t1 := range set {
 			for _, t2 := range set {
 				c05Dec(c, t1, "pair/first")
